@@ -322,6 +322,8 @@ theorem thick_band_discounted_all (l : Line) (w : Nat) (hw2 : w ≤ 2147483647) 
   · exact Or.inl ht
   · exact Or.inr ht
 
+example : (120 : Nat) ≤ 2147483647 := by decide
+
 /-- **Every band failure is the known finding**: the oracle's attribution predicate holds for every
 stroke, so on the model a pixel outside `w/2 + 2.5` is always explained by skipped steps (the class
 `C17:thick-band` without suffix never fires for a stroke that conforms to the model, at any width). -/
@@ -332,6 +334,11 @@ theorem thick_band_overcount_explained_all (l : Line) (w : Nat) (hw2 : w ≤ 214
   rcases hall ps h p hp with ht | ⟨_, ht, _⟩
   · exact Or.inl ht
   · exact Or.inr ht
+
+/-- E.g. the first failing stroke of the real code, (119,57)-(-119,-52) width 34: 4 / 4 skipped steps. -/
+example : (34 : Nat) ≤ 2147483647 ∧
+    ((Thick.ParallelsIterator.new ⟨⟨119, 57⟩, ⟨-119, -52⟩⟩ 34 .none).bind (Thick.skipTotals 100)) = some (4, 4) := by
+  decide
 
 /-- The witness of `thick_band_false`, line (0,0)-(2,1) width 37: 5 / 4 `Extra` steps are skipped on
 the left / right side (the harness port reports the same counts for the real code), the pixel (9,-19)
